@@ -416,6 +416,9 @@ def run(ctx, config='rel-all'):
     from . import forwarding, glue
     forwarding.check(ctx, config, 'R6', 'string::String', 29)
     glue.check_string(ctx, config, 'R7')
+    # ---- R9 helpers, accessors, Drain iterator glue
+    from . import helpers
+    helpers.check_string(ctx, config, 'R9')
     # ---- R8 the exported format! macro, analysed on its expansion in a client probe
     if config == 'rel-all':
         from . import macros
